@@ -1235,6 +1235,18 @@ impl Core {
 			*active_memtable = memtable;
 		}
 
+		// The WAL writer was opened before the replay. A repair replaces the
+		// damaged segment by a repaired copy (write + rename), which leaves a
+		// writer that is already open appending to the old, now unlinked file:
+		// every commit acknowledged in this session would be lost on the next
+		// open. Reopen the writer on the files as they are after recovery.
+		{
+			let log_number = inner.level_manifest.read()?.get_log_number();
+			let mut wal_guard = inner.wal.write();
+			*wal_guard =
+				Wal::open_with_min_log_number(&wal_path, log_number, wal::Options::default())?;
+		}
+
 		// Ensure the active memtable has the correct WAL number set
 		{
 			let active_memtable = inner.active_memtable.read()?;
@@ -1624,6 +1636,15 @@ impl Tree {
 		if let Some(memtable) = recovered_memtable {
 			let mut active_memtable = self.core.inner.active_memtable.write()?;
 			*active_memtable = memtable;
+		}
+
+		// Same as in Core::new: a repair during the replay replaces the segment
+		// file under the writer opened above, so reopen the writer afterwards.
+		{
+			let log_number = self.core.inner.level_manifest.read()?.get_log_number();
+			let mut wal_guard = self.core.inner.wal.write();
+			*wal_guard =
+				Wal::open_with_min_log_number(&wal_path, log_number, wal::Options::default())?;
 		}
 
 		// Ensure the active memtable has the correct WAL number set
